@@ -163,9 +163,6 @@ def name_cases(ctx, rng, n, stream):
         mcls, _ = split_model(ans.get("M", "?"))
         stream.count("impl:" + icls)
         stream.nontrivial.add(digest((case["nodes"], case["ops"], case["lim"])))
-        if not icls.startswith("ERR") and in_region_c13b(case):
-            stream.count("known-finding-region:F-C13b")
-            continue
         if not icls.startswith("ERR"):
             # a subject dropped by the 'anything' de-duplication or shadowed set semantics could hide a name;
             # the property says: a rule that mentions an absent module never yields a verdict
@@ -176,6 +173,58 @@ def name_cases(ctx, rng, n, stream):
         elif icls != mcls:
             ctx.broken.append({"kind": "correspondence-broken", "what": "correspondence impl = PtaModel (unknown names)",
                                "theorem": "Pta.C13.unknown_name", "line": gen.rule_line(case), "impl": impl, "model": ans.get("M")})
+
+
+def regex_batch_cases(ctx, rng, n, stream):
+    """several patterns in one specification, one of which matches nothing: the no-match error, never a verdict"""
+    import re as _re
+
+    from pytestarch.utils.partial_match_to_regex_converter import convert_partial_match_to_regex as conv
+
+    from ..rules_common import random_cases
+
+    cases = []
+    for c in random_cases(rng, n, comps=gen.IDENT_ADVERSARIAL, strict=False, max_nodes=10, max_imports=8):
+        nodes = c["nodes"]
+        ok = rng.choice(nodes)
+        ok = rng.choice([ok, "*" + ok.split(".")[-1], ok[:1] + "*"])
+        bad = rng.choice(["zz_no_such_module", "*zz_no_such", "zz_no_such*"])
+        frags = [ok, bad] if rng.random() < 0.5 else [bad, ok]
+        if rng.random() < 0.3:
+            frags.append(rng.choice(nodes))
+        side = rng.choice(["subject", "object"])
+        ops = []
+        replaced = False
+        positions = [i for i, (op, arg) in enumerate(c["ops"]) if isinstance(arg, list)]
+        if not positions:
+            continue
+        target = positions[0] if side == "subject" else positions[-1]
+        for i, (op, arg) in enumerate(c["ops"]):
+            if i == target:
+                ops.append(("contain", frags))
+                replaced = True
+            else:
+                ops.append((op, arg))
+        if not replaced:
+            continue
+        rxs = [conv(f) for f in frags]
+        tab = [(rx, [m for m in nodes if _re.match(rx, m)]) for rx in rxs]
+        cases.append({"nodes": nodes, "imps": c["imps"], "lim": None, "ops": ops, "spec": None, "mtab": tab})
+    res = evaluate(ctx, cases)
+    for case, impl, ans in res:
+        stream.evaluations += 1
+        icls, _, _ = split_impl(impl)
+        mcls, _ = split_model(ans.get("M", "?"))
+        stream.count("impl:" + icls)
+        stream.nontrivial.add(digest((case["nodes"], case["ops"])))
+        if not icls.startswith("ERR"):
+            ctx.violations.append({"kind": "property-violation", "what": f"a specification containing a pattern that matches no module returns {icls}",
+                                   "line": gen.rule_line(case), "impl": impl, "model": ans.get("M"), "python": python_snippet(case)})
+            if len(ctx.violations) >= 5:
+                return
+        elif icls != mcls:
+            ctx.broken.append({"kind": "correspondence-broken", "what": "correspondence impl = PtaModel (pattern batches with a non-matching pattern)",
+                               "theorem": "Pta.C13.no_match", "line": gen.rule_line(case), "impl": impl, "model": ans.get("M")})
 
 
 def run(ctx: Ctx):
@@ -205,6 +254,7 @@ def run(ctx: Ctx):
     s.finish()
     s = Stream(ctx, "misspelt / too-deep module names (also level-limited graphs)")
     name_cases(ctx, ctx.rng("names"), ctx.size(4000, 60000), s)
+    regex_batch_cases(ctx, ctx.rng("regex-batches"), ctx.size(1500, 20000), s)
     s.finish()
     from . import c13_more
 
